@@ -3,7 +3,8 @@ R1: the index layer (Pdb/Model/Index.lean, proved in C09) refines the logical ta
 hash column of P1 (Pdb/Model/Pipeline.lean).
 
   * `Implements ops acts`: `acts` is a translation of the P1 operations `ops` of ONE plain hash
-    column into index-layer actions (`Op.set k v ↦ .set k tier v` for any tier, `Op.deref k ↦
+    column into index-layer actions (`Op.set k v ↦ .set k tier ext v` for any tier and any
+    number of continuation slots, `Op.deref k ↦
     .del k`, `Op.ref` has no effect on a plain column), with any number of maintenance actions
     (reindex batches, enacted drops, reopen, relaunch) interleaved: those are stutter steps.
   * `spec_implements`: the abstract map of C09 (`Index.spec`) lifted to a P1 table is
@@ -20,21 +21,21 @@ open Pdb.Gen Pdb.Index
 def liftMap (m : Key → Option Val) : Pdb.Tbl Key Val := fun k => (m k).map (fun v => (v, 1))
 
 /-- index-layer actions performing one P1 operation on a plain hash column -/
-def opActs (tier : Key → Val → Nat) : Pdb.Op Key Val → List Index.Action
-  | .set k v => [.set k (tier k v) v]
+def opActs (tier ext : Key → Val → Nat) : Pdb.Op Key Val → List Index.Action
+  | .set k v => [.set k (tier k v) (ext k v) v]
   | .deref k => [.del k]
   | .ref _ => []
 
 /-- the canonical translation (no maintenance in between) -/
-def translate (tier : Key → Val → Nat) (ops : List (Pdb.Op Key Val)) : List Index.Action :=
-  ops.flatMap (opActs tier)
+def translate (tier ext : Key → Val → Nat) (ops : List (Pdb.Op Key Val)) : List Index.Action :=
+  ops.flatMap (opActs tier ext)
 
-/-- `acts` implements `ops`: the translation of `ops`, tiers arbitrary, maintenance actions
+/-- `acts` implements `ops`: the translation of `ops`, tiers and slot counts arbitrary, maintenance actions
 interleaved arbitrarily. -/
 inductive Implements : List (Pdb.Op Key Val) → List Index.Action → Prop
   | nil : Implements [] []
-  | set (k : Key) (tier : Nat) (v : Val) {ops : List (Pdb.Op Key Val)} {acts : List Index.Action} :
-      Implements ops acts → Implements (.set k v :: ops) (.set k tier v :: acts)
+  | set (k : Key) (tier ext : Nat) (v : Val) {ops : List (Pdb.Op Key Val)} {acts : List Index.Action} :
+      Implements ops acts → Implements (.set k v :: ops) (.set k tier ext v :: acts)
   | deref (k : Key) {ops : List (Pdb.Op Key Val)} {acts : List Index.Action} :
       Implements ops acts → Implements (.deref k :: ops) (.del k :: acts)
   | ref (k : Key) {ops : List (Pdb.Op Key Val)} {acts : List Index.Action} :
@@ -48,19 +49,19 @@ inductive Implements : List (Pdb.Op Key Val) → List Index.Action → Prop
   | relaunch {ops : List (Pdb.Op Key Val)} {acts : List Index.Action} :
       Implements ops acts → Implements ops (.relaunch :: acts)
 
-theorem translate_implements (tier : Key → Val → Nat) (ops : List (Pdb.Op Key Val)) :
-    Implements ops (translate tier ops) := by
+theorem translate_implements (tier ext : Key → Val → Nat) (ops : List (Pdb.Op Key Val)) :
+    Implements ops (translate tier ext ops) := by
   induction ops with
   | nil => exact .nil
   | cons op ops ih =>
     cases op with
-    | set k v => exact .set k (tier k v) v ih
+    | set k v => exact .set k (tier k v) (ext k v) v ih
     | deref k => exact .deref k ih
     | ref k => exact .ref k ih
 
 /-- the logical operations of an index action (maintenance: none) -/
 def logical : Index.Action → List (Pdb.Op Key Val)
-  | .set k _ v => [.set k v]
+  | .set k _ _ v => [.set k v]
   | .del k => [.deref k]
   | _ => []
 
@@ -69,7 +70,7 @@ theorem logical_implements (acts : List Index.Action) : Implements (acts.flatMap
   | nil => exact .nil
   | cons a acts ih =>
     cases a with
-    | set k t v => exact .set k t v ih
+    | set k t e v => exact .set k t e v ih
     | del k => exact .deref k ih
     | reindex => exact .reindex ih
     | enact => exact .enact ih
@@ -106,7 +107,7 @@ theorem spec_implements {ops : List (Pdb.Op Key Val)} {acts : List Index.Action}
     liftMap (Index.spec m acts) = Pdb.applyOps (fun _ => Pdb.Kind.plain) (liftMap m) ops := by
   induction h with
   | nil => intro m; rfl
-  | set k tier v _ ih => intro m; rw [applyOps_cons, liftMap_set]; exact ih _
+  | set k tier ext v _ ih => intro m; rw [applyOps_cons, liftMap_set]; exact ih _
   | deref k _ ih => intro m; rw [applyOps_cons, liftMap_deref]; exact ih _
   | ref k _ ih => intro m; rw [applyOps_cons, liftMap_ref]; exact ih _
   | reindex _ ih => intro m; exact ih m
@@ -128,7 +129,7 @@ theorem absCol_step {U : Key → Prop} {s s' : Col} {m : Key → Option Val} (hU
       simp only [absCol, liftMap, lookup_eq hU hG'.idx hG'.abs k hk]
     rw [e]
     cases a with
-    | set k' t v => simp only [logical, applyOps_cons, liftMap_set]; rfl
+    | set k' t e v => simp only [logical, applyOps_cons, liftMap_set]; rfl
     | del k' => simp only [logical, applyOps_cons, liftMap_deref]; rfl
     | reindex => rfl
     | enact => rfl
